@@ -104,3 +104,6 @@ Definition fits (c : ctx) (d : dec) : bool :=
   && ((prec c =? 0) || (ndigits (coeff d) <=? prec c))
   && (exp d + ndigits (coeff d) - 1 <=? emax c)
   && ((coeff d =? 0) || (emin c - prec c + 1 <=? exp d)).
+
+(* the digit count of 10^k + delta for delta in {-1, 0, 1}, k >= 1: k digits for 10^k - 1, k + 1 otherwise *)
+Definition expected_digits_pow10 (k delta : Z) : Z := if delta <? 0 then k else k + 1.
